@@ -265,14 +265,16 @@ _CONTAINERS = {"attrset_expression", "rec_attrset_expression", "list_expression"
 def _has_inline_multiline_container(text: str) -> str:
     """Does the text hold a set / list / formals laid out inline (first element on the
     opener's line) that nevertheless spans several lines?"""
-    root = cst.parse_bytes(cst.to_bytes(text)).root_node
+    data = cst.to_bytes(text)
+    root = cst.parse_bytes(data).root_node
+    index = cst.LineIndex(data)
     stack = [root]
     while stack:
         node = stack.pop()
         if node.child_count == 0:
             continue
         kids = node.children
-        if node.type in _CONTAINERS and node.end_point[0] > node.start_point[0]:
+        if node.type in _CONTAINERS and index.row(node.end_byte - 1) > index.row(node.start_byte):
             opener = next((k for k in kids if k.type in ("{", "[")), None)
             first = None
             seen = False
@@ -286,7 +288,7 @@ def _has_inline_multiline_container(text: str) -> str:
             if first is not None and first.type == "binding_set" and first.child_count:
                 first = first.children[0]
             if opener is not None and first is not None \
-                    and first.start_point[0] == opener.end_point[0]:
+                    and index.row(first.start_byte) == index.row(opener.start_byte):
                 return "yes"
         stack.extend(kids)
     return "no"
